@@ -317,3 +317,12 @@ define void @f(%A %a, %B %b, %SA %x, %SA %y) {
   %e = fcmp olt %SA %x, %y
   ret void
 }
+;;; ATOM types/named-array-types-in-front-of-string-and-empty-array-constants
+%S = type [3 x i8]
+%A = type [0 x i32]
+%P = type { %S, %A }
+@s = global %S c"abc"
+@e = global %A []
+@n = global { %S } { %S c"abc" }
+@p = global %P { %S c"xyz", %A [] }
+@arr = global [2 x %S] [%S c"abc", %S c"def"]
